@@ -24,6 +24,8 @@ import (
 	"os"
 	"reflect"
 	"strings"
+	"sync/atomic"
+	"time"
 
 	"github.com/bufbuild/protocompile/internal/trie"
 )
@@ -59,6 +61,8 @@ var (
 	capPer     = 100
 	implSeen   = map[string]int64{}
 	codingSeen = map[string]int64{}
+	progress   atomic.Int64
+	current    atomic.Pointer[tcase]
 )
 
 func main() {
@@ -75,6 +79,24 @@ func main() {
 
 	codings := makeCodings(*seed)
 	hugeCoding := longCoding("huge23000", rand.New(rand.NewSource(*seed+99)), 23000, 11000, "tail")
+	// a case that makes no progress for 60 s is reported as a hang of the real code
+	go func() {
+		last := int64(-1)
+		for {
+			time.Sleep(60 * time.Second)
+			p := progress.Load()
+			if p == last {
+				if c := current.Load(); c != nil {
+					_ = enc.Encode(mismatch{Class: "trie:hang", Hist: c.Hist, Detail: "no progress for 60 s"})
+				}
+				_ = enc.Encode(map[string]any{"stats": map[string]any{"aborted": true}})
+				out.Flush()
+				os.Exit(0)
+			}
+			last = p
+		}
+	}()
+
 	var n int64
 	for in.Scan() {
 		var c tcase
@@ -97,6 +119,8 @@ func main() {
 			a.G = [2]int{a.G[0], a.G[1] + 1}
 		}
 		n++
+		current.Store(&c)
+		progress.Add(1)
 		replay(&c, codings[0])
 		k := 1 + int((uint64(n)*2654435761+uint64(*seed)*40503)%uint64(len(codings)-1))
 		replay(&c, codings[k])
